@@ -207,7 +207,7 @@ func (w *w3) differential(op simrt.Op) {
 	etcdStore := n.store
 	faultsSeen := false
 	for i := int64(0); i < op.B && !w.sim.Failed(); i++ {
-		o := storeOp{kind: kinds[r.IntN(len(kinds))], topic: topics[r.IntN(len(topics))], group: groups[r.IntN(len(groups))], part: int32(r.IntN(3)), count: int32(1 + r.IntN(4)), val: int64(r.IntN(50)), meta: fmt.Sprintf("m%d", i)}
+		o := storeOp{kind: kinds[r.IntN(len(kinds))], topic: topics[r.IntN(len(topics))], group: groups[r.IntN(len(groups))], part: []int32{0, 1, 2, 0, 1, 2, 0, 1, 2, -1, 6}[r.IntN(11)], count: int32(1 + r.IntN(4)), val: int64(r.IntN(50)), meta: fmt.Sprintf("m%d", i)}
 		if o.kind == "Metadata" && r.IntN(2) == 0 {
 			o.topic = ""
 		}
